@@ -791,7 +791,10 @@ class FldExporter(Exporter):
         if self.input_values:
             values.append(engine.input_values)
         if self.output_values:
-            values.append(engine.output_values)
+            # output values that do not depend on the input values are scalars: one row per input row
+            rows = (input_values.shape[0],)
+            outputs = [np.broadcast_to(np.atleast_1d(ov.value), rows) for ov in engine.output_variables]
+            values.append(np.column_stack(outputs) if outputs else engine.output_values)
         if not values:
             values.append([])
 
